@@ -68,7 +68,7 @@ def describe(tier):
     b = BOUNDS[tier]
     return dict(
         rule='E2: operator skeletons with (elements, groups, repeaters, kind set, indents) in %s over kinds %s (small: %s) x syntaxes %s. '
-             'Transition = one production / next indent string.' % (b['sweeps'], list(KINDS), SMALL, SYNTAXES),
+             'Clauses under the first indent string: output.format off and the xhtml style change nothing, output.attributeCase upper changes the names in the attribute list only, the parsed tree can be formatted twice; the calls of a shard share one cache dict. Transition = one production / next indent string.' % (b['sweeps'], list(KINDS), SMALL, SYNTAXES),
         nontrivial='the abbreviation has at least two elements (relative depth is exercised).',
         bounds=b,
         assumptions=['how a text-only node itself is written, and trailing-space conventions, are left unspecified (lines are compared '
